@@ -121,6 +121,7 @@ def run(prop, monitor_cls, seed=0, index=0, n_ops=10, ops=None, header=None, dig
     env.setup()
     res = RunResult()
     opts = opts or {}
+    del env.FINGERPRINTS[:]
     try:
         if header is None:
             k = Keyed(seed, prop, index)
@@ -182,6 +183,7 @@ def run(prop, monitor_cls, seed=0, index=0, n_ops=10, ops=None, header=None, dig
     except Exception as e:
         res.harness_error = f"{type(e).__name__}: {e}\n{traceback.format_exc()}"
         res.ended = "harness_error"
+    res.extra["recompute_fingerprints"] = sorted(set(env.FINGERPRINTS))
     gc.collect()
     return res
 
